@@ -97,6 +97,8 @@ enum Kind {
     Refresh,
     CloneInto,
     SliceSome,
+    SliceAny,
+    Checkpoint,
 }
 
 impl Profile {
@@ -105,10 +107,10 @@ impl Profile {
         match self {
             Profile::GcOrders => &[
                 (Add, 22), (Bind, 28), (Put, 20), (Data, 20), (NextIdAdd, 3), (Kid, 1), (Kids, 1),
-                (Clone, 1), (SaveLoad, 1), (Slice, 1), (Merge, 1), (NextId, 1), (Snapshot, 1), (Refresh, 1), (CloneInto, 1), (SliceSome, 1),
+                (Clone, 1), (SaveLoad, 1), (Slice, 1), (Merge, 1), (NextId, 1), (Snapshot, 1), (Refresh, 1), (CloneInto, 1), (SliceSome, 1), (SliceAny, 1), (Checkpoint, 1),
             ],
             Profile::Overwrite => &[
-                (Add, 16), (Bind, 34), (Put, 26), (Data, 14), (Kid, 4), (Kids, 4), (NextIdAdd, 2),
+                (Add, 16), (Bind, 34), (Put, 26), (Data, 14), (Kid, 4), (Kids, 4), (NextIdAdd, 2), (Checkpoint, 3),
             ],
             Profile::Readd => &[
                 (Add, 32), (Bind, 24), (Put, 16), (Data, 19), (NextIdAdd, 3), (Kids, 2), (Kid, 4),
@@ -127,7 +129,7 @@ impl Profile {
                 (Add, 14), (Bind, 16), (Put, 12), (Data, 16), (NextId, 14), (NextIdAdd, 14), (Clone, 2), (Merge, 6), (Script, 4), (SaveLoad, 1), (Snapshot, 2), (Refresh, 2),
             ],
             Profile::Queries => &[
-                (Add, 18), (Bind, 30), (Put, 16), (Data, 12), (Slice, 5), (SliceSome, 6), (Kid, 4), (Kids, 4),
+                (Add, 18), (Bind, 30), (Put, 16), (Data, 12), (Slice, 5), (SliceSome, 6), (SliceAny, 3), (Kid, 4), (Kids, 4),
                 (NextIdAdd, 4), (Merge, 4),
             ],
         }
@@ -482,6 +484,16 @@ pub fn resolve(seed: &OpSeed, m: &Model, profile: Profile) -> Option<Call> {
             }
             Call::SliceSome(pres[idx(a, pres.len())], b)
         }
+        Kind::SliceAny => {
+            // preferably from a vertex that has an edge to a collected vertex
+            let dang = present_where(m, |i| m.get(i).edges.iter().any(|(_, t)| !m.present(*t)));
+            let pres = if dang.is_empty() { present_where(m, |_| true) } else { dang };
+            if pres.is_empty() {
+                return None;
+            }
+            Call::SliceAny(pres[idx(a, pres.len())])
+        }
+        Kind::Checkpoint => Call::Checkpoint,
         Kind::Snapshot => Call::Snapshot,
         Kind::Refresh => Call::RefreshSnapshot,
         Kind::Slice => {
@@ -593,6 +605,8 @@ pub fn classify(m: &Model, c: &Call) -> Vec<&'static str> {
         Call::Snapshot => ev.push("snapshot"),
         Call::CloneInto { .. } => ev.push("clone_from(into another store)"),
         Call::SliceSome(..) => ev.push("slice_some"),
+        Call::SliceAny(..) => ev.push("slice(through dangling edges too)"),
+        Call::Checkpoint => ev.push("checkpoint(save and go on)"),
         Call::RefreshSnapshot => ev.push("clone_from(snapshot)"),
         Call::SaveLoad => ev.push("save+load"),
         Call::Slice(..) => ev.push("slice"),
